@@ -587,7 +587,13 @@ impl World {
                 .with_clean_block_threshold(cfg.clean_threshold)
                 .with_buffer_pool_size(cfg.buffer_pool_size)
                 .with_recover_concurrency(2)
-                .with_tombstone_log(cfg.tombstone);
+                .with_tombstone_log(cfg.tombstone)
+                // verif hook: the public `with_compression` of the store builder is not forwarded to the engine
+                .with_compression(match cfg.compression {
+                    1 => Compression::Zstd,
+                    2 => Compression::Lz4,
+                    _ => Compression::None,
+                });
             if cfg.fifo_picker_only {
                 engine = engine.with_eviction_pickers(vec![Box::new(FifoPicker::new(0.1))]);
             }
